@@ -6,6 +6,7 @@ observation functions: every observation cell is Hidden or exactly the object at
 reference rigid transform; shape, anchor, heading and held item as specified.
 """
 from .. import obs as O
+from .. import refmodel as R
 from .. import universe as U
 from ..choice import ChoiceRng
 from ..desc import NONE, mkstate, tup
@@ -41,6 +42,43 @@ def judge(s, area, name, seeds, st=None):
         if m:
             return n, f'{name} area {area} ({kind} {v}): {m}'
     return n, None
+
+
+def judge_mutate(s, area, names):
+    """observe a state, change that state object in place (Grid.swap, cell assignment on the corners of the viewed
+    world rectangle, agent pose) and observe it again: the new observations must be sound for the NEW value"""
+    from gym_gridverse.geometry import Position
+    from ..desc import ORI, sdesc, mk
+
+    st = mkstate(s)
+    H, W = len(s[0]), len(s[0][0])
+    n = 0
+    for name in names:
+        O.observe(name, area, st)
+    cells = [(y, x) for y in range(H) for x in range(W)]
+    (ymin, ymax), (xmin, xmax) = area
+    corners = {c for c in (R.world_cell(s[1], s[2], s[3], dy, dx) for dy in (ymin, ymax) for dx in (xmin, xmax)) if R.inside(s[0], c)}
+    edits = []
+    if len(cells) >= 2:
+        edits.append(('swap', cells[0], cells[-1]))
+    for c in sorted(corners)[:4]:
+        edits.append(('set', c, U.beacon(3)))
+    edits.append(('pose', ((s[1] + 1) % H, (s[2] + 1) % W), R.TURN_RIGHT[s[3]]))
+    for e in edits:
+        if e[0] == 'swap':
+            st.grid.swap(Position(*e[1]), Position(*e[2]))
+        elif e[0] == 'set':
+            st.grid[Position(*e[1])] = mk(e[2])
+        else:
+            st.agent.position = Position(*e[1])
+            st.agent.orientation = ORI[e[2]]
+        now = sdesc(st)
+        for name in names:
+            n += 1
+            m = O.check_sound(name, area, now, O.observe(name, area, st, fill=0.5))
+            if m:
+                return n, f'{name} area {area}: after an in-place {e[0]} of the observed state ({e[1:]}): {m}', name
+    return n, None, None
 
 
 def judge_all(s, area, names, seeds):
@@ -80,6 +118,12 @@ def _work(job):
             if m and len(fails) < 3:
                 fails.append({'kind': 'obs_all', 's': s, 'area': area, 'names': order, 'seeds': list(seeds), 'message': m,
                               'sig': {'fn': name}})
+            if not m and not sub and (s[1] + s[2]) % 2 == 0 and area in stoch:
+                det = [nm for nm in order if nm != 'stochastic_raytracing']
+                k, m, name = judge_mutate(s, area, det)
+                n += k
+                if m and len(fails) < 3:
+                    fails.append({'kind': 'obs_mutate', 's': s, 'area': area, 'names': det, 'message': m, 'sig': {'fn': name, 'part': 'mutate'}})
     sample = None
     for sub, s in mine:
         if sub:
@@ -89,6 +133,8 @@ def _work(job):
 
 
 def replay(case):
+    if case['kind'] == 'obs_mutate':
+        return judge_mutate(tup(case['s']), tup(case['area']), case['names'])[1]
     if case['kind'] == 'obs_all':
         return judge_all(tup(case['s']), tup(case['area']), case['names'], case.get('seeds', []))[1]
     return judge(tup(case['s']), tup(case['area']), case['name'], case.get('seeds', []))[1]
